@@ -11,7 +11,7 @@ use crate::engine::*;
 use crate::entries::*;
 use crate::{vensure, vfail};
 
-pub const RULE: &str = "every engine feeds the same entry functions (udp_request, udp_response, http_request, http_path, http_response, ws_in text/binary, ws_out, peer_client, access_list_file, http_parse_request). (mutations) proptest builds a valid message for an entry and applies structure-aware mutations: truncation at any offset, extension, bit flips, field extremes spliced in, '=' / '&' / '%' in odd places, non-UTF-8 bytes, over-long identifiers, duplicated segments, JSON/bencode nesting; (random) raw random bytes up to the receive-buffer sizes; (nesting) deeply nested JSON / bencode (depth 10 .. 30000; plain, and behind lexical decoys - strings ending in an escaped backslash, escaped quotes, brackets inside strings, \\u escapes, bencode strings made of structure letters - in array, object, alternating and whitespace-separated shapes) run in child processes on a thread with the 2 MiB stack a worker thread has, so a stack overflow is seen as a killed child instead of killing the checker; (handlers) field extremes at storage level (numwant i32::MIN..MAX, left negative/usize::MAX, port extremes, max_response_peers/max_peers/max_offers in {0,1}, 0 and 10000 offers, scrapes of 0 and 10000 hashes); (corpus) committed inputs incl. every crash libFuzzer ever found; (fuzz) libFuzzer campaigns on the same entries, run by bin/check. Oracle: no panic / abort / overflow / out-of-bounds (the build has overflow checks and debug assertions on), bytes allocated by the call <= 128 x input length + 64 KiB (counting global allocator, per thread), rejected input yields an error value. non-trivial = the input is a mutation of a valid message or is accepted by the parser; distinct = distinct input bytes";
+pub const RULE: &str = "every engine feeds the same entry functions (udp_request, udp_response, http_request, http_path, http_response, ws_in text/binary, ws_out, peer_client, access_list_file, http_parse_request). (mutations) proptest builds a valid message for an entry (for tracker replies read by the client library also well-formed bencode whose compact peer strings have every byte length, not only whole 6- / 18-byte entries) and applies structure-aware mutations: truncation at any offset, extension, bit flips, field extremes spliced in, '=' / '&' / '%' in odd places, non-UTF-8 bytes, over-long identifiers, duplicated segments, JSON/bencode nesting; (random) raw random bytes up to the receive-buffer sizes; (nesting) deeply nested JSON / bencode (depth 10 .. 30000; plain, and behind lexical decoys - strings ending in an escaped backslash, escaped quotes, brackets inside strings, \\u escapes, bencode strings made of structure letters - in array, object, alternating and whitespace-separated shapes) run in child processes on a thread with the 2 MiB stack a worker thread has, so a stack overflow is seen as a killed child instead of killing the checker; (handlers) field extremes at storage level (numwant i32::MIN..MAX, left negative/usize::MAX, port extremes, max_response_peers/max_peers/max_offers in {0,1}, 0 and 10000 offers, scrapes of 0 and 10000 hashes); (corpus) committed inputs incl. every crash libFuzzer ever found; (fuzz) libFuzzer campaigns on the same entries, run by bin/check. Oracle: no panic / abort / overflow / out-of-bounds (the build has overflow checks and debug assertions on), bytes allocated by the call <= 128 x input length + 64 KiB (counting global allocator, per thread), rejected input yields an error value. non-trivial = the input is a mutation of a valid message or is accepted by the parser; distinct = distinct input bytes";
 
 #[derive(Debug, Clone, Serialize, Deserialize)]
 pub enum Mut {
@@ -78,11 +78,20 @@ pub fn base_message(entry: &str, base: u8) -> Vec<u8> {
         "http_response" => match base % 3 {
             0 => {
                 let mut v = b"d8:completei1e10:incompletei2e8:intervali120e5:peers".to_vec();
+                // compact peer strings of every byte length, each with a consistent length prefix:
+                // whole entries (6 / 18 bytes each) as a tracker writes them, and ragged ones -
+                // a length that is a multiple of one entry size but not of the other included
                 let n = (base / 3 % 20) as usize;
-                v.extend(format!("{}:", n * 6).into_bytes());
-                v.extend(std::iter::repeat(7u8).take(n * 6));
-                v.extend(b"6:peers618:");
-                v.extend(std::iter::repeat(8u8).take(18));
+                let ragged4 = if base >= 128 { (base % 7) as usize } else { 0 };
+                let len6 = match base / 3 % 4 {
+                    0 => 18,
+                    1 => 18 * (base as usize / 12 % 5),
+                    _ => base as usize / 5 % 50,
+                };
+                v.extend(format!("{}:", n * 6 + ragged4).into_bytes());
+                v.extend(std::iter::repeat(7u8).take(n * 6 + ragged4));
+                v.extend(format!("6:peers6{}:", len6).into_bytes());
+                v.extend(std::iter::repeat(8u8).take(len6));
                 v.extend(b"e");
                 v
             }
